@@ -591,7 +591,7 @@ def subchecks(tier):
             quick=400,
             thorough=40000,
             steps=25,
-            floors={"json_roundtrip": 0.1, "linear_query": 0.05, "remove_or_update_after_two_adds": 0.134, "scalar_multiple_inside_sum": 0.128, "subset_query": 0.101, "failed_add": 0.117, "removed_one_of_two_equally_named": 0.1, "current_object_added_again": 0.1},
+            floors={"json_roundtrip": 0.1, "linear_query": 0.05, "remove_or_update_after_two_adds": 0.134, "scalar_multiple_inside_sum": 0.128, "subset_query": 0.101, "failed_add": 0.099, "removed_one_of_two_equally_named": 0.1, "current_object_added_again": 0.1},
         )
     ]
 
